@@ -19,10 +19,10 @@ Local Open Scope Z_scope.
 
 (* ---------- the fuelled run and the fuel-free run agree ---------- *)
 Section Basics.
-Variables (h : hier) (resolve : name -> name -> option name).
+Variables (h : hier) (resolve : name -> name -> option name) (strict : bool).
 
 Lemma srun_mono : forall fuel cur e o,
-  srun h resolve false fuel cur e = o -> o <> Stuck -> forall k, srun h resolve false (fuel + k) cur e = o.
+  srun h resolve strict fuel cur e = o -> o <> Stuck -> forall k, srun h resolve strict (fuel + k) cur e = o.
 Proof.
   induction fuel as [|f IH]; intros cur e o H Hne k; [cbn in H; congruence|].
   cbn [srun Nat.add] in *. destruct (find h cur) as [b|]; [|congruence].
@@ -34,11 +34,14 @@ Proof.
   - destruct (elook v e) as [[z rs]|]; [|congruence].
     destruct (zassoc z tbl) as [t|]; [|congruence].
     destruct (zmem t (n_jt b)); [|congruence].
-    destruct (resolve cur t) as [nx|]; [|congruence]. apply IH; assumption.
+    destruct strict.
+    + destruct (zmem cur rs); [congruence|].
+      destruct (resolve cur t) as [nx|]; [|congruence]. apply IH; assumption.
+    + destruct (resolve cur t) as [nx|]; [|congruence]. apply IH; assumption.
 Qed.
 
 Lemma srun_correct : forall fuel cur e o,
-  srun h resolve false fuel cur e = o -> o <> Stuck -> SRun h resolve false cur e o.
+  srun h resolve strict fuel cur e = o -> o <> Stuck -> SRun h resolve strict cur e o.
 Proof.
   induction fuel as [|f IH]; intros cur e o H Hne; [cbn in H; congruence|].
   cbn [srun] in H. destruct (find h cur) as [b|] eqn:Hb; [|congruence].
@@ -52,27 +55,30 @@ Proof.
   - destruct (elook v e) as [[z rs]|] eqn:Hv; [|congruence].
     destruct (zassoc z tbl) as [t|] eqn:Hz; [|congruence].
     destruct (zmem t (n_jt b)) eqn:Hm; [|congruence].
-    destruct (resolve cur t) as [nx|] eqn:Hr; [|congruence]. eapply SR_branch; eauto.
+    destruct strict eqn:Hs.
+    + destruct (zmem cur rs) eqn:Hrd; [congruence|].
+      destruct (resolve cur t) as [nx|] eqn:Hr; [|congruence]. eapply SR_branch_strict; eauto.
+    + destruct (resolve cur t) as [nx|] eqn:Hr; [|congruence]. eapply SR_branch; eauto.
 Qed.
 
-Lemma srun_complete cur e o : SRun h resolve false cur e o -> exists fuel, srun h resolve false fuel cur e = o.
+Lemma srun_complete cur e o : SRun h resolve strict cur e o -> exists fuel, srun h resolve strict fuel cur e = o.
 Proof.
   induction 1 as [cur e b p Hb Hk|cur e b c Hb Hk Hj|cur e b c t nx o Hb Hk Hj Hr _ [f IH]
                  |cur e b a t nx o Hb Hk Hj Hr _ [f IH]
                  |cur e b c v tbl z rs t nx o Hb Hk Hv Hz Hm Hs Hr _ [f IH]
-                 |cur e b c v tbl z rs t nx o Hb Hk Hv Hz Hm Hs Hrd Hr _ _].
+                 |cur e b c v tbl z rs t nx o Hb Hk Hv Hz Hm Hs Hrd Hr _ [f IH]].
   - exists 1%nat. cbn. rewrite Hb, Hk. reflexivity.
   - exists 1%nat. cbn. rewrite Hb, Hk, Hj. reflexivity.
   - exists (S f). cbn [srun]. rewrite Hb, Hk, Hj, Hr. exact IH.
   - exists (S f). cbn [srun]. rewrite Hb, Hk, Hj, Hr. exact IH.
-  - exists (S f). cbn [srun]. rewrite Hb, Hk, Hv, Hz, Hm, Hr. exact IH.
-  - discriminate.
+  - exists (S f). cbn [srun]. rewrite Hb, Hk, Hv, Hz, Hm, Hr. rewrite Hs at 1. exact IH.
+  - exists (S f). cbn [srun]. rewrite Hb, Hk, Hv, Hz, Hm, Hrd, Hr. rewrite Hs at 1. exact IH.
 Qed.
 
-Lemma SRun_not_stuck cur e o : SRun h resolve false cur e o -> o <> Stuck.
+Lemma SRun_not_stuck cur e o : SRun h resolve strict cur e o -> o <> Stuck.
 Proof. induction 1; try discriminate; assumption. Qed.
 
-Lemma SRun_reached_orig cur e m e1 : SRun h resolve false cur e (Reached m e1) ->
+Lemma SRun_reached_orig cur e m e1 : SRun h resolve strict cur e (Reached m e1) ->
   exists b p, find h m = Some b /\ n_kind b = KOrig p.
 Proof.
   remember (Reached m e1) as o eqn:Eo. induction 1; try discriminate; try (apply IHSRun; exact Eo).
@@ -82,7 +88,7 @@ End Basics.
 
 (* ---------- refinement ---------- *)
 Section Refine.
-Variables (h h' : hier) (r r' : name -> name -> option name).
+Variables (h h' : hier) (r r' : name -> name -> option name) (strict : bool).
 Variable F : Z -> Prop.          (* the control variables only the bridges touch *)
 Variable Old : name -> Prop.     (* the blocks of h *)
 
@@ -92,7 +98,7 @@ Definition E (e e' : env) : Prop := forall v, ~ F v -> elook v e = elook v e'.
 Definition Edge (x t t' : name) : Prop :=
   forall e e', E e e' ->
     exists c c' k e'', r x t = Some c /\ Old c /\ r' x t' = Some c' /\ E e e'' /\
-      forall fuel, srun h' r' false (k + fuel) c' e' = srun h' r' false fuel c e''.
+      forall fuel, srun h' r' strict (k + fuel) c' e' = srun h' r' strict fuel c e''.
 
 Definition proceed (b : node) (tbl : list (Z * name)) (z : Z) : option name :=
   match zassoc z tbl with
@@ -138,9 +144,23 @@ Proof.
   destruct (zassoc v (map (fun p => (fst p, (snd p, @nil name))) a)); [reflexivity|apply He; exact Hv].
 Qed.
 
+Lemma E_read v z rs cur e e' : ~ F v -> E e e' -> E (eread v z rs cur e) (eread v z rs cur e').
+Proof.
+  intros Hv He w Hw. rewrite !elook_eread. destruct (Z.eqb w v); [reflexivity|apply He; exact Hw].
+Qed.
+
+Lemma strict_dec : {strict = true} + {strict = false}.
+Proof. destruct strict; auto. Qed.
+
+Lemma if_t {T} (a b : T) : strict = true -> (if strict then a else b) = a.
+Proof. destruct strict; [reflexivity|discriminate]. Qed.
+
+Lemma if_f {T} (a b : T) : strict = false -> (if strict then a else b) = b.
+Proof. destruct strict; [discriminate|reflexivity]. Qed.
+
 Lemma forward : forall f x e e' o, Old x -> E e e' ->
-  srun h r false f x e = o -> o <> Stuck ->
-  exists f' o', srun h' r' false f' x e' = o' /\ O o o'.
+  srun h r strict f x e = o -> o <> Stuck ->
+  exists f' o', srun h' r' strict f' x e' = o' /\ O o o'.
 Proof.
   induction f as [|f IH]; intros x e e' o Hx He H Hne; [cbn in H; congruence|].
   destruct (Hold x Hx) as [b [b' [Hb [Hb' Hc]]]]. cbn [srun] in H. rewrite Hb in H.
@@ -166,19 +186,27 @@ Proof.
     destruct (zmem t (n_jt b)); [|congruence].
     destruct (zassoc z tbl') as [t'|] eqn:Hz'; [|contradiction].
     destruct (zmem t' (n_jt b')) eqn:Hm'; [|contradiction].
-    destruct (Htab e e' He) as [c0 [c0' [k [e'' [Hr [Hold0 [Hr' [He'' Hbr]]]]]]]].
-    rewrite Hr in H. destruct (IH c0 e e'' o Hold0 He'' H Hne) as [f1 [o' [H1 HO]]].
-    exists (S (k + f1)), o'. split; [|exact HO]. cbn [srun]. rewrite Hb', Hk'. rewrite <- (He v Hv), Hlook, Hz', Hm', Hr', Hbr. exact H1.
+    destruct strict_dec as [Hs|Hs].
+    + rewrite (if_t _ _ Hs) in H. destruct (zmem x rs) eqn:Hrd; [congruence|].
+      destruct (Htab _ _ (E_read v z rs x e e' Hv He)) as [c0 [c0' [k [e'' [Hr [Hold0 [Hr' [He'' Hbr]]]]]]]].
+      rewrite Hr in H. destruct (IH c0 _ e'' o Hold0 He'' H Hne) as [f1 [o' [H1 HO]]].
+      exists (S (k + f1)), o'. split; [|exact HO]. cbn [srun]. rewrite Hb', Hk'.
+      rewrite <- (He v Hv), Hlook, Hz', Hm'. rewrite (if_t _ _ Hs). rewrite Hrd, Hr', Hbr. exact H1.
+    + rewrite (if_f _ _ Hs) in H.
+      destruct (Htab e e' He) as [c0 [c0' [k [e'' [Hr [Hold0 [Hr' [He'' Hbr]]]]]]]].
+      rewrite Hr in H. destruct (IH c0 e e'' o Hold0 He'' H Hne) as [f1 [o' [H1 HO]]].
+      exists (S (k + f1)), o'. split; [|exact HO]. cbn [srun]. rewrite Hb', Hk'.
+      rewrite <- (He v Hv), Hlook, Hz', Hm'. rewrite (if_f _ _ Hs). rewrite Hr', Hbr. exact H1.
 Qed.
 
 Lemma bridge_back k c c' e' e'' f o' :
-  (forall fuel, srun h' r' false (k + fuel) c' e' = srun h' r' false fuel c e'') ->
-  srun h' r' false f c' e' = o' -> o' <> Stuck ->
-  (k <= f)%nat /\ srun h' r' false (f - k) c e'' = o'.
+  (forall fuel, srun h' r' strict (k + fuel) c' e' = srun h' r' strict fuel c e'') ->
+  srun h' r' strict f c' e' = o' -> o' <> Stuck ->
+  (k <= f)%nat /\ srun h' r' strict (f - k) c e'' = o'.
 Proof.
   intros Hbr H Hne. destruct (Nat.le_gt_cases k f) as [Hle|Hgt].
   - split; [exact Hle|]. rewrite <- Hbr. replace (k + (f - k))%nat with f by lia. exact H.
-  - exfalso. pose proof (srun_mono h' r' f c' e' o' H Hne (k - f)) as Hm.
+  - exfalso. pose proof (srun_mono h' r' strict f c' e' o' H Hne (k - f)) as Hm.
     replace (f + (k - f))%nat with (k + 0)%nat in Hm by lia. rewrite Hbr in Hm. cbn in Hm. congruence.
 Qed.
 
@@ -186,8 +214,8 @@ Lemma O_not_stuck o o' : O o o' -> o <> Stuck.
 Proof. destruct o; [discriminate|discriminate|destruct o'; contradiction]. Qed.
 
 Lemma backward : forall f x e e' o', Old x -> E e e' ->
-  srun h' r' false f x e' = o' -> o' <> Stuck ->
-  exists o, srun h r false f x e = o /\ O o o'.
+  srun h' r' strict f x e' = o' -> o' <> Stuck ->
+  exists o, srun h r strict f x e = o /\ O o o'.
 Proof.
   induction f as [f IH] using (well_founded_induction lt_wf). intros x e e' o' Hx He H Hne.
   destruct f as [|f]; [cbn in H; congruence|].
@@ -201,7 +229,7 @@ Proof.
     + rewrite Hj' in H. rewrite Hj. destruct (Hedge e e' He) as [c0 [c0' [k [e'' [Hr [Hold0 [Hr' [He'' Hbr]]]]]]]].
       rewrite Hr' in H. rewrite Hr. destruct (bridge_back k c0 c0' e' e'' f o' Hbr H Hne) as [Hle H2].
       destruct (IH (f - k)%nat ltac:(lia) c0 e e'' o' Hold0 He'' H2 Hne) as [o [H3 HO]].
-      exists o. split; [|exact HO]. pose proof (srun_mono h r _ _ _ _ H3 (O_not_stuck _ _ HO) k) as Hm.
+      exists o. split; [|exact HO]. pose proof (srun_mono h r strict _ _ _ _ H3 (O_not_stuck _ _ HO) k) as Hm.
       replace (f - k + k)%nat with f in Hm by lia. exact Hm.
     + rewrite Hj' in H. congruence.
   - destruct Hc as [-> [Hfa [[t [t' [Hj [Hj' Hedge]]]]|[Hl Hl']]]].
@@ -209,7 +237,7 @@ Proof.
       destruct (Hedge (eupd a e) (eupd a e') (E_upd a e e' Hfa He)) as [c0 [c0' [k [e'' [Hr [Hold0 [Hr' [He'' Hbr]]]]]]]].
       rewrite Hr' in H. rewrite Hr. destruct (bridge_back k c0 c0' _ e'' f o' Hbr H Hne) as [Hle H2].
       destruct (IH (f - k)%nat ltac:(lia) c0 _ e'' o' Hold0 He'' H2 Hne) as [o [H3 HO]].
-      exists o. split; [|exact HO]. pose proof (srun_mono h r _ _ _ _ H3 (O_not_stuck _ _ HO) k) as Hm.
+      exists o. split; [|exact HO]. pose proof (srun_mono h r strict _ _ _ _ H3 (O_not_stuck _ _ HO) k) as Hm.
       replace (f - k + k)%nat with f in Hm by lia. exact Hm.
     + destruct (n_jt b') as [|t [|t2 r1]]; try congruence. cbn in Hl'. congruence.
   - destruct Hc as [-> [Hv Htab]]. rewrite (He v Hv).
@@ -219,44 +247,52 @@ Proof.
     destruct (zmem t' (n_jt b')); [|destruct (zassoc z tbl) as [t|]; [destruct (zmem t (n_jt b)); [contradiction|congruence]|congruence]].
     destruct (zassoc z tbl) as [t|] eqn:Hz; [|contradiction].
     destruct (zmem t (n_jt b)) eqn:Hm0; [|contradiction].
-    destruct (Htab e e' He) as [c0 [c0' [k [e'' [Hr [Hold0 [Hr' [He'' Hbr]]]]]]]].
-    rewrite Hr' in H. rewrite Hr. destruct (bridge_back k c0 c0' e' e'' f o' Hbr H Hne) as [Hle H2].
-    destruct (IH (f - k)%nat ltac:(lia) c0 e e'' o' Hold0 He'' H2 Hne) as [o [H3 HO]].
-    exists o. split; [|exact HO]. pose proof (srun_mono h r _ _ _ _ H3 (O_not_stuck _ _ HO) k) as Hm.
-    replace (f - k + k)%nat with f in Hm by lia. exact Hm.
+    destruct strict_dec as [Hs|Hs].
+    + rewrite (if_t _ _ Hs) in H. rewrite (if_t _ _ Hs). destruct (zmem x rs) eqn:Hrd; [congruence|].
+      destruct (Htab _ _ (E_read v z rs x e e' Hv He)) as [c0 [c0' [k [e'' [Hr [Hold0 [Hr' [He'' Hbr]]]]]]]].
+      rewrite Hr' in H. rewrite Hr. destruct (bridge_back k c0 c0' _ e'' f o' Hbr H Hne) as [Hle H2].
+      destruct (IH (f - k)%nat ltac:(lia) c0 _ e'' o' Hold0 He'' H2 Hne) as [o [H3 HO]].
+      exists o. split; [|exact HO]. pose proof (srun_mono h r strict _ _ _ _ H3 (O_not_stuck _ _ HO) k) as Hm.
+      replace (f - k + k)%nat with f in Hm by lia. exact Hm.
+    + rewrite (if_f _ _ Hs) in H. rewrite (if_f _ _ Hs).
+      destruct (Htab e e' He) as [c0 [c0' [k [e'' [Hr [Hold0 [Hr' [He'' Hbr]]]]]]]].
+      rewrite Hr' in H. rewrite Hr. destruct (bridge_back k c0 c0' e' e'' f o' Hbr H Hne) as [Hle H2].
+      destruct (IH (f - k)%nat ltac:(lia) c0 e e'' o' Hold0 He'' H2 Hne) as [o [H3 HO]].
+      exists o. split; [|exact HO]. pose proof (srun_mono h r strict _ _ _ _ H3 (O_not_stuck _ _ HO) k) as Hm.
+      replace (f - k + k)%nat with f in Hm by lia. exact Hm.
 Qed.
 
 (* the same for the fuel-free run, started behind an edge *)
 Lemma edge_forward x t t' e e' c o : Edge x t t' -> E e e' -> r x t = Some c ->
-  SRun h r false c e o -> exists c' o', r' x t' = Some c' /\ SRun h' r' false c' e' o' /\ O o o'.
+  SRun h r strict c e o -> exists c' o', r' x t' = Some c' /\ SRun h' r' strict c' e' o' /\ O o o'.
 Proof.
   intros Hedge He Hr Hrun. destruct (Hedge e e' He) as [c0 [c0' [k [e'' [Hr0 [Hold0 [Hr' [He'' Hbr]]]]]]]].
   rewrite Hr in Hr0. injection Hr0 as <-.
-  destruct (srun_complete h r c e o Hrun) as [f Hf].
-  destruct (forward f c e e'' o Hold0 He'' Hf (SRun_not_stuck h r c e o Hrun)) as [f' [o' [H1 HO]]].
+  destruct (srun_complete h r strict c e o Hrun) as [f Hf].
+  destruct (forward f c e e'' o Hold0 He'' Hf (SRun_not_stuck h r strict c e o Hrun)) as [f' [o' [H1 HO]]].
   exists c0', o'. split; [exact Hr'|]. split; [|exact HO].
-  apply (srun_correct h' r' (k + f')). { rewrite Hbr. exact H1. }
+  apply (srun_correct h' r' strict (k + f')). { rewrite Hbr. exact H1. }
   intros ->. destruct o; cbn in HO; contradiction.
 Qed.
 
 Lemma edge_backward x t t' e e' c' o' : Edge x t t' -> E e e' -> r' x t' = Some c' ->
-  SRun h' r' false c' e' o' -> exists c o, r x t = Some c /\ SRun h r false c e o /\ O o o'.
+  SRun h' r' strict c' e' o' -> exists c o, r x t = Some c /\ SRun h r strict c e o /\ O o o'.
 Proof.
   intros Hedge He Hr' Hrun. destruct (Hedge e e' He) as [c0 [c0' [k [e'' [Hr0 [Hold0 [Hr0' [He'' Hbr]]]]]]]].
   rewrite Hr' in Hr0'. injection Hr0' as <-.
-  destruct (srun_complete h' r' c' e' o' Hrun) as [f Hf].
-  pose proof (SRun_not_stuck h' r' c' e' o' Hrun) as Hne.
+  destruct (srun_complete h' r' strict c' e' o' Hrun) as [f Hf].
+  pose proof (SRun_not_stuck h' r' strict c' e' o' Hrun) as Hne.
   destruct (bridge_back k c0 c' e' e'' f o' Hbr Hf Hne) as [Hle H2].
   destruct (backward (f - k) c0 e e'' o' Hold0 He'' H2 Hne) as [o [H3 HO]].
   exists c0, o. split; [exact Hr0|]. split; [|exact HO].
-  apply (srun_correct h r (f - k)); [exact H3|apply (O_not_stuck _ _ HO)].
+  apply (srun_correct h r strict (f - k)); [exact H3|apply (O_not_stuck _ _ HO)].
 Qed.
 
 (* ---------- walks ---------- *)
 Theorem walk_refines : forall n e ds tr st,
-  WTrace h r false n e ds tr st ->
+  WTrace h r strict n e ds tr st ->
   forall e', Old n -> (exists b p, find h n = Some b /\ n_kind b = KOrig p) -> E e e' ->
-  WTrace h' r' false n e' ds tr st.
+  WTrace h' r' strict n e' ds tr st.
 Proof.
   induction 1 as [n e ds Hj|n e ds t c Hj Hr Hs|n e l Hj Hne Hnot|n e d ds l Hj Hne Hnot Hnth
                  |n e d ds l t c m e1 tr st Hj Hnth Hr Hrun Hrest IH];
